@@ -23,35 +23,49 @@ Pool == { Doc(9, "RO1", "roCreate"), Doc(1000, "RO1", "roCreate"), Doc(10, "RO1"
           Doc(11, "RO1", "fail"), Doc(101, "RO1", "roDelete"), Doc(99, "RO2", "ok") }
 DocLists == UNION { { s \in [1..n -> Pool] : \A a, b \in 1..n : a < b => s[a].mid < s[b].mid } : n \in 1..MaxDocs }
 
-VARIABLES cmd, files, k, marks, pc
-clivars == <<cmd, files, k, marks, pc>>
+VARIABLES cmd, mode, files, k, marks, pc
+clivars == <<cmd, mode, files, k, marks, pc>>
+
+S3Able(fs) == \A i \in DOMAIN fs : fs[i].kind \in {"valid", "nonxml", "unknown"}
 
 Init ==
   /\ cmd \in {"detect", "inspect"}
+  /\ mode \in {"files", "bucket_prefix", "bucket_prefix_suffix", "bucket_key", "bucket_only", "none"}
   /\ files \in FileLists
-  /\ k = 1 /\ marks = <<>> /\ pc = "loop"
-  /\ (Export => PrintT(<<"CLI", ToJson([cmd |-> cmd, files |-> files])>>))
+  /\ mode # "files" => S3Able(files) /\ Len(files) <= 2
+  /\ mode = "bucket_key" => Len(files) = 1
+  /\ k = 1 /\ marks = <<>>
+  /\ pc = IF UsageError(cmd, mode) THEN "usage" ELSE "loop"
+  /\ (Export => PrintT(<<"CLI", ToJson([cmd |-> cmd, mode |-> mode, files |-> files])>>))
 
 ProcessFile ==
   /\ pc = "loop" /\ k <= Len(files)
   /\ marks' = Append(marks, IF IsValid(files[k]) THEN Marker(files[k]) ELSE "invalid")
   /\ k' = k + 1
-  /\ UNCHANGED <<cmd, files, pc>>
+  /\ UNCHANGED <<cmd, mode, files, pc>>
 Done ==
   /\ pc = "loop" /\ k = Len(files) + 1
   /\ pc' = "exit"
-  /\ UNCHANGED <<cmd, files, k, marks>>
-Next == ProcessFile \/ Done
+  /\ UNCHANGED <<cmd, mode, files, k, marks>>
+Usage ==                      \* nothing names a document: message on stderr, status 2, nothing processed
+  /\ pc = "usage"
+  /\ pc' = "exit2"
+  /\ UNCHANGED <<cmd, mode, files, k, marks>>
+Next == ProcessFile \/ Done \/ Usage
 Spec == Init /\ [][Next]_clivars /\ WF_clivars(Next)
 
-Live_AllProcessed == <>(pc = "exit" /\ Len(marks) = Len(files))
+Live_AllProcessed == <>((pc = "exit" /\ Len(marks) = Len(files)) \/ (pc = "exit2" /\ marks = <<>>))
 Inv_InOrder == \A i \in DOMAIN marks : marks[i] = (IF IsValid(files[i]) THEN Marker(files[i]) ELSE "invalid")
 
 (* the merge command: a second, stateless enumeration exported from the    *)
 (* initial states of a dummy variable                                      *)
-MergeCases == { [docs |-> d, allow |-> a, nonstrict |-> n, outfile |-> o]
+MergeCases == { [docs |-> d, allow |-> a, nonstrict |-> n, outfile |-> o, mode |-> "files"]
                   : d \in DocLists, a \in BOOLEAN, n \in BOOLEAN, o \in BOOLEAN }
+              \cup { [docs |-> d, allow |-> a, nonstrict |-> n, outfile |-> FALSE, mode |-> md]
+                  : d \in { x \in DocLists : Len(x) <= 2 }, a \in BOOLEAN, n \in BOOLEAN,
+                    md \in {"bucket_prefix", "bucket_prefix_suffix", "bucket_only", "none"} }
 ASSUME Export => \A c \in MergeCases :
-          PrintT(<<"MERGE", ToJson([c |-> c, rc |-> MergeRc(c.docs, c.allow, c.nonstrict)])>>)
-ASSUME \A c \in MergeCases : MergeRc(c.docs, c.allow, c.nonstrict) \in {0, 2}
+          PrintT(<<"MERGE", ToJson([c |-> c, rc |-> MergeRcMode(c.docs, c.allow, c.nonstrict, c.mode)])>>)
+ASSUME \A c \in MergeCases : MergeRcMode(c.docs, c.allow, c.nonstrict, c.mode) \in {0, 2}
+ASSUME \A c \in MergeCases : c.mode = "files" => MergeRcMode(c.docs, c.allow, c.nonstrict, c.mode) = MergeRc(c.docs, c.allow, c.nonstrict)
 =============================================================================
